@@ -1,6 +1,8 @@
-(* Property C17 -- statements only (part 1: termination, no invention; the round trip is in C17RT). *)
-From Coq Require Import ZArith List.
-Require Import PyLib Varint QuicFrames FrameTable C17P.
+(* Property C17 -- statements only: termination, no invention, and the exact split (round trip) for variable-length integers, field
+   programs, frames and whole payloads. *)
+From Coq Require Import ZArith List Bool Lia.
+Require Import PyLib Varint QuicFrames FrameTable C17P C17RoundP.
+Import ListNotations.
 Open Scope Z_scope.
 
 (* on arbitrary bytes the parser never runs out of its (length + 1) fuel: the Python loop terminates *)
@@ -19,3 +21,43 @@ Print Assumptions C17_no_invention.
 Theorem C17_class_constants : forallb const_ok class_consts = true /\ length class_consts = 19%nat.
 Proof. exact class_consts_ok. Qed.
 Print Assumptions C17_class_constants.
+
+(* ---- parsed exactly ---- *)
+(* RFC 9000 16: a value encoded in 1, 2, 4 or 8 bytes is read back with exactly that length *)
+Theorem C17_varint_roundtrip : forall v w, wok w -> 0 <= v < 2 ^ (8 * w - 2) ->
+  get_variable_length_int_length (slice (enc_var v w) 0 1) = Ok w /\ decode_variable_length_int (enc_var v w) = Ok v /\ len (enc_var v w) = w /\ bytes_ok (enc_var v w).
+Proof. exact varint_roundtrip. Qed.
+Print Assumptions C17_varint_roundtrip.
+
+(* any sequence of fields that fits a class's field program (varints of any legal widths, single bytes, data of the announced or fixed
+   length, data to the end of the packet as last field), anywhere in a packet: the reader returns exactly the values and consumes exactly their bytes *)
+Theorem C17_fields_roundtrip : forall fs prog pre post ints datas,
+  fits prog fs (last_int (len pre, ints, datas)) -> (ends_with_rest prog = true -> post = []) ->
+  run_prog (pre ++ enc_fs fs ++ post) prog (len pre, ints, datas) =
+  Ok (len pre + len (enc_fs fs), rev (ints_of fs) ++ ints, rev (datas_of fs) ++ datas).
+Proof. exact run_prog_roundtrip. Qed.
+Print Assumptions C17_fields_roundtrip.
+
+(* a frame of a class given by a field program (RESET_STREAM, STOP_SENDING, CRYPTO, NEW_TOKEN, STREAM with every combination of the OFF,
+   LEN and FIN bits, MAX_*, *_BLOCKED, NEW_CONNECTION_ID, RETIRE_CONNECTION_ID, CONNECTION_CLOSE), followed by anything *)
+Theorem C17_frame_roundtrip : forall c t fs post, prog_class c = true -> fits (prog_of c t) fs 0 -> (ends_with_rest (prog_of c t) = true -> post = []) ->
+  parse_one c (t :: enc_fs fs ++ post) = Ok (frame_of c t fs).
+Proof. exact parse_one_roundtrip. Qed.
+Print Assumptions C17_frame_roundtrip.
+
+(* a payload that is a sequence of such frames (a STREAM frame without LEN bit only as the last one), dispatched through the table
+   regenerated from the source: parse_frames returns exactly the frames, in order *)
+Theorem C17_payload_roundtrip : forall l, frames_ok frame_table l -> parse_frames frame_table (concat (map enc_frame l)) = Ok (map frame_of' l).
+Proof. exact (parse_frames_roundtrip frame_table). Qed.
+Print Assumptions C17_payload_roundtrip.
+
+(* non-vacuity: CRYPTO(offset 5, 3 bytes), STREAM id 4 with OFF and LEN (8-byte offset encoding, 2-byte length encoding), MAX_DATA, STREAM
+   id 0 without LEN to the end of the packet -- all dispatched by the regenerated table *)
+Example C17_roundtrip_example :
+  let l := [ (CCrypto, 6, [FV 5 1; FV 3 2; FD [1; 2; 3]]); (CStream, 0x0e, [FV 4 1; FV 70000 8; FV 2 2; FD [9; 9]]);
+             (CMaxData, 0x10, [FV 1048576 4]); (CStream, 0x08, [FV 0 1; FR [7; 7; 7]]) ] in
+  frames_ok frame_table l /\ parse_frames frame_table (concat (map enc_frame l)) = Ok (map frame_of' l).
+Proof.
+  split; [|vm_compute; reflexivity].
+  cbn [frames_ok]. repeat split; try reflexivity; try discriminate; unfold wok; try lia; auto.
+Qed.
